@@ -472,7 +472,7 @@ func runPace(c ProtoCase, out *core.Outcome) {
 	d.doc.Mf.CardAccess = ca
 	pass, err := w.PasswordFor()
 	if err != nil {
-		out.Discarded = "harness: password " + err.Error()
+		out.Violate("C04", "password-rejected", c.Spec.Password+"/"+w.Holder.Layout, "password object could not be built from the well-formed MRZ %q: %v", w.Holder.MRZ(), err)
 		return
 	}
 	sel := c.Spec.PACE[0] // highest preference: CAM > AES256 > ... by construction of the generator lists only GM 3DES extras
@@ -664,7 +664,7 @@ func runBac(c ProtoCase, out *core.Outcome) {
 	w := d.w
 	pass, err := w.PasswordFor()
 	if err != nil {
-		out.Discarded = "harness: password " + err.Error()
+		out.Violate("C05", "password-rejected", c.Spec.Password+"/"+w.Holder.Layout, "password object could not be built from the well-formed MRZ %q: %v", w.Holder.MRZ(), err)
 		return
 	}
 	if c.Mode == "wrong-password" {
